@@ -986,9 +986,10 @@ Corollary model_ok_C02 src src' outs :
   Determinism.model_result src outs <> ImplErr -> Determinism.model_result src' outs <> ImplErr ->
   Determinism.ok {| Determinism.d_src1 := src; Determinism.d_src2 := src'; Determinism.d_outputs := outs;
                     Determinism.d_impl1 := Determinism.model_result src outs;
-                    Determinism.d_impl2 := Determinism.model_result src' outs |} = true.
+                    Determinism.d_impl2 := Determinism.model_result src' outs;
+                    Determinism.d_hist := [] |} = true.
 Proof.
-  intros Hwf Hsm Howf Hpd H1 H2. unfold Determinism.ok. cbn.
+  intros Hwf Hsm Howf Hpd H1 H2. unfold Determinism.ok. cbn. rewrite andb_true_r.
   rewrite (model_result_insertion_independent src src' outs Hwf Hsm Howf Hpd H1 H2). apply impl_eqb_refl.
 Qed.
 
